@@ -314,7 +314,7 @@ func c09R2(r *Run, pf, mf, rv *c09fn) {
 			var rel []string
 			for _, a := range pf.acc {
 				if pf.in(label, a.in) && (a.kind == "index" || a.kind == "uintN") {
-					for _, p := range a.pos {
+					for _, p := range pf.positionsRead(a) {
 						rel = append(rel, "initOffset+("+p.plus(p2, -1).String()+")")
 					}
 				}
@@ -351,7 +351,13 @@ func c09R2(r *Run, pf, mf, rv *c09fn) {
 				val = cv.X
 			}
 			ok, detail := false, ""
-			{
+			if _, isPhi := val.(*ssa.Phi); isPhi {
+				// assembled by a loop: Σ data[lo+j] << 8·(k−1−j) over the k bytes from lo on, most
+				// significant first (whatever lo is: the base is R1's subject, the set of bytes (a)'s)
+				lo, okA, why := accumulatorOver(pf, val, fn.Params[1], linConst(k), sets[0])
+				ok, detail = okA, fmt.Sprintf("value accumulated over a loop: %s (byte j of %d consecutive bytes must be shifted by 8·(%d−j))", why, k, k-1)
+				_ = lo
+			} else {
 				tree, okT := beTree(e, val, pf.acc)
 				sort.Slice(tree, func(i, j int) bool { return tree[i].shift > tree[j].shift })
 				ok = okT && int64(len(tree)) == k
